@@ -53,6 +53,11 @@ CLAIMS = {
             'and its null edge cannot report Success; Box::from_raw is paired with Box::leak on every normal exit unless the handle was released; the Err '
             'outcome of every fallible library call cannot reach Success; callback adapters return Ok only on status 0 with the reported count; extraction '
             'registers only caller-initialised writers and goes through linear_extract. Byte equality with the Rust interface is not decided.'),
+    'C09': (TECH_RULES + ' with interprocedural effect / refusal summaries', '§4 C09',
+            'Decides for all paths of the ArchiveWriter call tree: no refusal knowable before writing (duplicate / over-long name, wrong state, unknown id) is '
+            'reachable after an effect on the writer state or the destination (fixpoint summaries; structural discharges for contradicted arms and already-tested '
+            'limits; dead refusals tabled with their invariant); effects sit behind the state and id-membership tests; the copied byte count is compared '
+            'with the announced length; refusals surface through StreamWriter and the CLI. Equality of the final archive with the reference model is not decided.'),
 }
 
 NOT_APPLICABLE = {
